@@ -542,6 +542,8 @@ pub fn run_c12(ctx: &Ctx) -> i32 {
     quit_reset_scenarios(ctx, &shared);
     // a connection that only sends silent quiet commands is an active connection
     quiet_keepalive_scenario(&shared);
+    // a request body that crosses the receive timeout is never taken for requests
+    slow_body_scenarios(&shared, ctx.thorough());
     shared.into_inner().unwrap().finish()
 }
 
@@ -597,6 +599,124 @@ fn quiet_keepalive_scenario(shared: &Mutex<Evidence>) {
             e.violation(
                 Viol::new(tags, "active-connection-dropped", format!("9 {} commands paced 300 ms apart (idle timeout 1 s): {} were applied, connection open afterwards: {}", if *quiet { "setq" } else { "set" }, stored, open)),
                 json!({"engine":"pipe-keepalive","quiet":quiet,"stored":stored,"open":open}),
+            );
+        }
+    }
+}
+
+
+/// A request whose body crosses the server's receive timeout: header and a first part of the body, then either a
+/// trickle (activity in every timeout window) or silence longer than the timeout, then the rest of the body. The
+/// rest of the body *is* a well-formed pipelined stream (a set of a canary key and a noop). Whatever the server's
+/// timeout policy - drop the slow peer, or grant it more time - bytes inside the announced body must never be
+/// taken for requests: the canary stays absent and no response carries the smuggled opaques. Covers an oversized
+/// request (body being discarded) and a within-limit one (body being buffered).
+pub fn slow_body_scenarios(shared: &Mutex<Evidence>, full: bool) {
+    struct Out {
+        name: String,
+        canary: bool,
+        smuggled_opaques: Vec<u32>,
+        end: End,
+        answers: Vec<String>,
+        follower_answered: bool,
+    }
+    let mut grid: Vec<(u32, bool, bool, u8)> = vec![]; // item limit, oversized, trickle, opcode
+    for (limit, over) in [(1024u32, true), (3000, true), (1 << 16, false)] {
+        for trickle in [true, false] {
+            grid.push((limit, over, trickle, if trickle { op::SET } else { op::ADD }));
+        }
+    }
+    if full {
+        grid.push((1024, true, true, op::APPEND));
+        grid.push((2048, true, false, op::SETQ));
+        grid.push((1 << 16, false, true, op::REPLACEQ));
+    }
+    let mut outs: Vec<Out> = vec![];
+    std::thread::scope(|s| {
+        let hs: Vec<_> = grid
+            .iter()
+            .enumerate()
+            .map(|(gi, &(limit, over, trickle, opc))| {
+                s.spawn(move || -> Option<Out> {
+                    use std::io::Write;
+                    let srv = Server::start(SrvCfg { idle_s: 1, item_limit: limit, workers: if gi % 2 == 0 { None } else { Some(2) }, ..Default::default() }).ok()?;
+                    let canary = format!("smuggled-{}", gi).into_bytes();
+                    let mut inner = wire::store(op::SET, &canary, b"from-inside-a-body", 0, 0, 0x5A5A_0001, 0).encode();
+                    inner.extend(wire::simple(op::NOOP, 0x5A5A_0002).encode());
+                    let key = format!("slow-{}", gi).into_bytes();
+                    let value_len = if over { limit as usize + 700 } else { 1800 };
+                    let head_part = 120usize;
+                    let trickle_part = 60usize;
+                    // value = filler | (two trickle chunks) | smuggled frames | filler
+                    let mut value = vec![b'A'; head_part];
+                    value.extend(vec![b'B'; 2 * trickle_part]);
+                    let inner_at = value.len();
+                    value.extend(&inner);
+                    while value.len() < value_len {
+                        value.push(b'C');
+                    }
+                    let f = if opc == op::APPEND { wire::concat(opc, &key, &value, 1, 0) } else { wire::store(opc, &key, &value, 0, 0, 1, 0) };
+                    let bytes = f.encode();
+                    let body_at = bytes.len() - value.len();
+                    let mut c = Cli::connect(srv.port).ok()?;
+                    c.s.write_all(&bytes[..body_at + head_part]).ok()?;
+                    if trickle {
+                        std::thread::sleep(Duration::from_millis(450));
+                        let _ = c.s.write_all(&bytes[body_at + head_part..body_at + head_part + trickle_part]);
+                        std::thread::sleep(Duration::from_millis(450));
+                        let _ = c.s.write_all(&bytes[body_at + head_part + trickle_part..body_at + inner_at]);
+                        std::thread::sleep(Duration::from_millis(600));
+                    } else {
+                        std::thread::sleep(Duration::from_millis(1500));
+                        let _ = c.s.write_all(&bytes[body_at + head_part..body_at + inner_at]);
+                        std::thread::sleep(Duration::from_millis(50));
+                    }
+                    // the receive timeout (1 s) has expired by now; these bytes start with a well-formed request
+                    let _ = c.s.write_all(&bytes[body_at + inner_at..]);
+                    let _ = c.s.write_all(&wire::simple(op::NOOP, 0x5A5A_0003).encode());
+                    let end = c.read_to_end(Duration::from_millis(1500));
+                    let resps = parse_prefix(&c.rx);
+                    let mut obs = Cli::connect(srv.port).ok()?;
+                    let hit = ask(&mut obs, &wire::get(op::GET, &canary, 9)).map(|r| r.status == st::OK)?;
+                    Some(Out {
+                        name: format!("{} limit={} body={} {}", op::name(opc), limit, value_len + key.len() + 8, if trickle { "trickle" } else { "silence" }),
+                        canary: hit,
+                        smuggled_opaques: resps.iter().map(|r| r.opaque).filter(|o| *o == 0x5A5A_0001 || *o == 0x5A5A_0002).collect(),
+                        end,
+                        answers: resps.iter().map(|r| r.brief()).collect(),
+                        follower_answered: resps.iter().any(|r| r.opaque == 0x5A5A_0003),
+                    })
+                })
+            })
+            .collect();
+        for h in hs {
+            if let Ok(Some(o)) = h.join() {
+                outs.push(o);
+            }
+        }
+    });
+    let mut e = shared.lock().unwrap();
+    if outs.len() < grid.len() {
+        e.inconclusive.push(format!("slow-body scenarios: {} of {} could not be run (server start / connect)", grid.len() - outs.len(), grid.len()));
+    }
+    for o in &outs {
+        e.evaluations += 1;
+        e.nontrivial.insert(fnv(format!("slowbody:{}", o.name).as_bytes()));
+        e.count(&format!("slow_body:{}", if o.end == End::Open { "kept-open" } else { "closed-by-server" }), 1);
+        if o.follower_answered {
+            e.count("slow_body:follower_answered_after_body", 1);
+        }
+        if o.canary || !o.smuggled_opaques.is_empty() {
+            e.violation(
+                Viol::new(
+                    &["C09", "C12", "C13", "C18"],
+                    "body-bytes-executed",
+                    format!(
+                        "{}: the body crossed the 1 s receive timeout and bytes inside the announced body were executed as requests (canary key stored: {}, responses to smuggled opaques: {:x?}); answers {:?}",
+                        o.name, o.canary, o.smuggled_opaques, o.answers
+                    ),
+                ),
+                json!({"engine":"slow-body","scenario":o.name,"canary_stored":o.canary,"answers":o.answers,"connection_end":format!("{:?}",o.end)}),
             );
         }
     }
@@ -1111,6 +1231,9 @@ pub fn run_sock_frames(ctx: &Ctx) -> i32 {
             });
         }
     });
+    if matches!(ctx.prop.as_str(), "C09" | "C13") && ctx.only_case.is_none() {
+        slow_body_scenarios(&shared, ctx.thorough());
+    }
     shared.into_inner().unwrap().finish()
 }
 
